@@ -16,8 +16,10 @@ package compose
 //@ max-arity: 2
 //@ emits: decls
 //@ serves: compose typs=typs
-//@ o-sig: () (r func())
-//@ o-header: unchecked
+// the parameters are what the user's call passes (function types are invariant: the stage types themselves)
+//@ o-sig: when len(typs)=2 (f0 $typs[0], f1 $typs[1]) (r func())
+//@ o-sig: when len(typs)=3 (f0 $typs[0], f1 $typs[1], f2 $typs[2]) (r func())
+//@ o-header: params
 //@ o-fork: when len(typs)=2 when nresults(typs[1])>=2 nilable result0(typs[1])
 //@ o-fork: when len(typs)=3 when nresults(typs[2])>=2 nilable result0(typs[2])
 //@ o-requires: f0 != nil && f1 != nil
